@@ -2689,17 +2689,18 @@ def run(ctx):
     # the transport below the line-level reader (Deb822Stream): the lines delivered do not depend on the block cuts
     #  quick: documents of <= 2 fields, alternating line widths, block cuts of every size and phase + one short read;
     #  thorough: all width modes, and documents of <= 3 fields / two armor shapes under block cuts
-    light.append(dict(name="stream", module="Deb822Stream", workers=2, tags=set(),
+    # -Xss64m: the recursive operators of Deb822Stream overflow the default thread stack when the JIT is slow (loaded machine)
+    light.append(dict(name="stream", module="Deb822Stream", workers=2, tags=set(), java_opts=["-Xss64m"],
                       cfg=cfg_text("MC_Deb822Stream.cfg", WidthModes="{3}") if quick else "MC_Deb822Stream.cfg"))
     if not quick:
-        light.append(dict(name="stream_wide", module="Deb822Stream", workers=4, tags=set(),
+        light.append(dict(name="stream_wide", module="Deb822Stream", workers=4, tags=set(), java_opts=["-Xss64m"],
                           cfg=cfg_text("MC_Deb822Stream.cfg", MaxTotal="3", MaxFields="3", ShortReads="FALSE", ArmorHdrs="{0, 1}",
                                        ArmorMaxFields="2")))
     for const, inv in (STREAM_CONTROLS if not quick else [STREAM_CONTROLS[ctx.seed % len(STREAM_CONTROLS)]]):
         import re as _re
         c = cfg_text("MC_Deb822Stream.cfg", ShortReads="FALSE", **{const: "TRUE"})
         c = _re.sub(r"(?m)^INVARIANT .*\n", "", c) + "INVARIANT %s\n" % inv
-        light.append(dict(name="neg:%s=TRUE" % const, module="Deb822Stream", expect=inv, workers=1, tags=set(), cfg=c))
+        light.append(dict(name="neg:%s=TRUE" % const, module="Deb822Stream", expect=inv, workers=1, tags=set(), cfg=c, java_opts=["-Xss64m"]))
     call_controls = [("SharedResults", "INVARIANT ReturnedFresh", "ReturnedFresh"),
                      ("SharedIterObject", "PROPERTY NoSpontaneousChange", "NoSpontaneousChange"),
                      ("FaultSharesStorage", "PROPERTY FaultsChangeNothing", "FaultsChangeNothing")]
